@@ -230,10 +230,6 @@ class HomogeneousPoissonApproxEncoder(GeneratorMixin, StepMixin, Module):
 
     @frequency.setter
     def frequency(self, value: float) -> None:
-        # refrac-frequency compatibility test
-        if self.__compensate_freq:
-            _ = argtest.lt("frequency * refrac", value * self.refrac, 1000, float)
-
         self.__frequency_scale = argtest.gte("frequency", value, 0, float)
 
     def forward(
